@@ -563,6 +563,23 @@ def symlink_ce_release(cfg, rng):
     return ops, {}
 
 
+def ce_second_block_release(cfg, rng):
+    """Rock Ridge: so many long-named files that a SECOND continuation block is needed, then exactly the entries of a later
+    block are removed again WITHOUT any mastering in between (all blocks still carry their placeholder extent): the emptied
+    block -- and only it -- must be released; the survivors' continuation areas must still be found"""
+    if not cfg.rr:
+        return None
+    ops, sizes = [], {}
+    n = rng.randrange(12, 20)           # names of ~240 bytes: about 8 continuation entries per block
+    for k in range(n):
+        sizes[k + 1] = 3
+        ops.append({'k': 'add_fp', 'blob': k + 1, 'size': 3, 'iso': '/' + file_ident(cfg, k, 8), 'rr': ('n%02d-' % k) + 'x' * rng.randrange(236, 244)})
+    m = rng.randrange(1, n - 8)         # remove the last m: they live in the last block(s)
+    for k in range(n - 1, n - 1 - m, -1):
+        ops.append({'k': 'rm_file' if k % 2 else 'rm_link', 'ns': 'iso', 'path': '/' + file_ident(cfg, k, 8)})
+    return ops, sizes
+
+
 def udf_fid_exact(cfg, rng):
     """UDF directory whose File Identifier Descriptors end exactly on a 2048-byte boundary, with more entries after it:
     parent FID 40 bytes, names of 2..5 bytes -> 44, names of 6..9 bytes -> 48: 40 + 2*44 + 40*48 = 2048"""
@@ -643,6 +660,7 @@ RECIPES = {
     'reloc_churn': lambda cfg, rng: reloc_churn(cfg, rng),
     'long_symlinks': lambda cfg, rng: long_symlinks(cfg, rng),
     'symlink_ce_release': lambda cfg, rng: symlink_ce_release(cfg, rng),
+    'ce_second_block_release': lambda cfg, rng: ce_second_block_release(cfg, rng),
     'udf_fid_cross': lambda cfg, rng: udf_fid_cross(cfg, rng),
     'udf_fid_churn': lambda cfg, rng: udf_fid_churn(cfg, rng),
     'udf_fid_exact': lambda cfg, rng: udf_fid_exact(cfg, rng),
